@@ -1147,6 +1147,17 @@ def query_parameter(binding_key):
   return _CONFIG[pbk.config_key][pbk.arg_name]
 
 
+def _get_positional_only_parameter_names(fn):
+  """Returns the names of the positional-only parameters of `fn`."""
+  try:
+    parameters = inspect.signature(fn).parameters.values()
+  except (TypeError, ValueError):  # No signature available (some builtins).
+    return []
+  return [
+      p.name for p in parameters if p.kind == inspect.Parameter.POSITIONAL_ONLY
+  ]
+
+
 def _might_have_parameter(fn_or_cls, arg_name):
   """Returns True if `arg_name` might be a valid parameter for `fn_or_cls`.
 
@@ -1177,14 +1188,7 @@ def _might_have_parameter(fn_or_cls, arg_name):
   arg_names = arg_spec.args  # pytype: disable=attribute-error
   if inspect.isclass(fn_or_cls):  # pytype: disable=wrong-arg-types
     arg_names = arg_names[1:]
-  try:
-    parameters = inspect.signature(fn).parameters.values()
-  except (TypeError, ValueError):  # No signature available (some builtins).
-    parameters = ()
-  positional_only = [
-      p.name for p in parameters if p.kind == inspect.Parameter.POSITIONAL_ONLY
-  ]
-  if arg_name in positional_only:
+  if arg_name in _get_positional_only_parameter_names(fn):
     return False
   return arg_name in arg_names or arg_name in arg_spec.kwonlyargs  # pytype: disable=attribute-error
 
@@ -1282,12 +1286,15 @@ def _get_default_configurable_parameter_values(fn, allowlist, denylist):
   arg_vals = _get_kwarg_defaults(fn)
 
   # Now, eliminate keywords that are denylisted, or aren't allowlisted (if
-  # there's an allowlist), or aren't representable as a literal value.
+  # there's an allowlist), or aren't representable as a literal value, or can't
+  # be supplied by keyword at all (positional-only parameters).
+  positional_only = _get_positional_only_parameter_names(fn)
   for k in list(arg_vals):
     allowlist_fail = allowlist and k not in allowlist
     denylist_fail = denylist and k in denylist
     representable = _is_literally_representable(arg_vals[k])
-    if allowlist_fail or denylist_fail or not representable:
+    if (allowlist_fail or denylist_fail or not representable or
+        k in positional_only):
       del arg_vals[k]
 
   return arg_vals
